@@ -220,6 +220,8 @@ Proof.
     destruct (e_opt d); intro H; inversion H; reflexivity.
 Qed.
 
+Arguments member_value : simpl never.
+
 Lemma member_value_sound : keys_sound (member_value W rec hist).
 Proof.
   intros it k v H. pose proof (member_value_key it k v H) as Hk.
@@ -357,6 +359,8 @@ Qed.
 
 End Emit.
 
+Arguments member_value : simpl never.
+
 (* ------------------------------------------------------------------ *)
 (* the two flattenings of a content model agree                        *)
 (* ------------------------------------------------------------------ *)
@@ -456,4 +460,155 @@ Lemma exp_attrs_items W t : exp_attrs W t = flat_map attr_of_item (all_items W t
 Proof.
   unfold exp_attrs, all_items, base_chain. rewrite flat_map_flat_map.
   apply flat_map_ext. intro c. symmetry. apply own_attrs.
+Qed.
+
+(* ------------------------------------------------------------------ *)
+(* fuel: the history can only grow within the declarations of W        *)
+(* ------------------------------------------------------------------ *)
+Definition remaining (W : wsdl) (hist : list hid) : nat :=
+  length (filter (fun u => negb (hid_in u hist)) (universe W)).
+
+Lemma filter_length_lt {A} (f g : A -> bool) l x :
+  (forall y, g y = true -> f y = true) -> In x l -> f x = true -> g x = false ->
+  length (filter g l) < length (filter f l).
+Proof.
+  intros Himp. induction l as [|y l IH]; cbn; intros Hi Hf Hg; [contradiction|].
+  assert (Hle : length (filter g l) <= length (filter f l)).
+  { clear -Himp. induction l as [|z l IH]; cbn; auto.
+    destruct (g z) eqn:Eg.
+    - rewrite (Himp z Eg). cbn. lia.
+    - destruct (f z); cbn; lia. }
+  destruct Hi as [->|Hi].
+  - rewrite Hf, Hg. cbn. lia.
+  - specialize (IH Hi Hf Hg). destruct (g y) eqn:Eg.
+    + rewrite (Himp y Eg). cbn. lia.
+    + destruct (f y); cbn; lia.
+Qed.
+
+Lemma remaining_cons W h hist :
+  In h (universe W) -> hid_in h hist = false -> remaining W (h :: hist) < remaining W hist.
+Proof.
+  intros Hi Hh. unfold remaining. apply (filter_length_lt _ _ _ h); auto.
+  - intros y Hy. cbn in Hy. rewrite negb_orb in Hy. apply andb_true_iff in Hy as [_ Hy]. exact Hy.
+  - rewrite Hh. reflexivity.
+  - cbn. replace (hid_eqb h h) with true by (symmetry; apply hid_eqb_eq_l; reflexivity). reflexivity.
+Qed.
+
+Lemma remaining_le W hist : remaining W hist <= length (universe W).
+Proof.
+  unfold remaining. induction (universe W) as [|u l IH]; cbn; auto.
+  destruct (negb (hid_in u hist)); cbn; lia.
+Qed.
+
+Lemma find_type_in S q t : find_type S q = Some t -> In t S.
+Proof. unfold find_type. intro H. apply find_some in H. tauto. Qed.
+
+Lemma chain_in S n t : In t S -> forall c, In c (chain S n t) -> In c S.
+Proof.
+  revert t. induction n as [|n IH]; intros t Ht c Hc; cbn in Hc.
+  - destruct Hc as [<-|[]]. exact Ht.
+  - destruct (c_base t) as [b|].
+    + destruct (find_type S b) as [bt|] eqn:E.
+      * apply in_app_or in Hc as [Hc|[<-|[]]]; auto. eapply IH; [|exact Hc]. eapply find_type_in; eauto.
+      * destruct Hc as [<-|[]]. exact Ht.
+    + destruct Hc as [<-|[]]. exact Ht.
+Qed.
+
+Lemma item_in_universe W t o i d ch op :
+  In t (w_types W) -> In (FE o i d ch op) (all_items W t) -> In (o, i, d) (universe W).
+Proof.
+  intros Ht Hi. unfold all_items in Hi. apply in_flat_map in Hi as [c [Hc Hi]].
+  unfold universe. apply in_flat_map. exists c. split.
+  - eapply chain_in; eauto.
+  - unfold hids_of. apply in_flat_map. exists (FE o i d ch op). split; auto. left. reflexivity.
+Qed.
+
+(* ------------------------------------------------------------------ *)
+(* matching the members of a built object                              *)
+(* ------------------------------------------------------------------ *)
+Section MatchLemmas.
+Variable present : sentry -> key -> pv -> bool.
+Variable absent : sentry -> bool.
+
+Lemma mm_skip_head e E L :
+  absent e = true ->
+  (forall k x, In (k, x) L -> snd k = false -> present e k x = false) ->
+  match_members present absent (e :: E) L = match_members present absent E L.
+Proof.
+  intros Ha. induction L as [|[k x] L IH]; intro Hp.
+  - cbn. rewrite Ha. reflexivity.
+  - cbn [match_members]. destruct (snd k) eqn:Ek.
+    + apply IH. intros k' x' Hi. apply Hp. right. exact Hi.
+    + cbn [skip_to]. rewrite (Hp k x (or_introl eq_refl) Ek). rewrite Ha. reflexivity.
+Qed.
+
+End MatchLemmas.
+
+Section Mirror.
+Variable W : wsdl.
+Variable rec : list hid -> ctype -> keylist.
+Variable hist : list hid.
+Variable present : sentry -> key -> pv -> bool.
+Variable absent : sentry -> bool.
+
+Definition item_cond (it : fitem) : Prop :=
+  match it with
+  | FA _ => True
+  | FW => absent SWild = true /\ forall k x, present SWild k x = false
+  | FE o i d ch op =>
+      (forall k x, fst k <> e_name d -> present (SE d ch op) k x = false) /\
+      match member_value W rec hist it with
+      | Some (k, x) => present (SE d ch op) k x = true
+      | None => absent (SE d ch op) = true
+      end
+  end.
+
+Lemma emit_keys its k x : In (k, x) (flat_map (emit W rec hist) its) -> In k (ordering its).
+Proof.
+  intro H. apply in_flat_map in H as [it [Hi He]]. eapply in_ordering; eauto.
+  destruct it as [o i d ch op| |a]; cbn [emit] in He.
+  - destruct (member_value W rec hist (FE o i d ch op)) as [[k' v]|] eqn:E; [|contradiction].
+    destruct He as [He|[]]. inversion He; subst. eapply member_value_sound; eauto.
+  - contradiction.
+  - destruct He as [He|[]]. inversion He. left. reflexivity.
+Qed.
+
+Lemma match_items its :
+  NoDup (ordering its) -> (forall it, In it its -> item_cond it) ->
+  match_members present absent (flat_map entry_of its) (flat_map (emit W rec hist) its) = true.
+Proof.
+  induction its as [|it r IH]; intros Hn Hc; [reflexivity|].
+  change (ordering (it :: r)) with (item_keys it ++ ordering r) in Hn.
+  assert (Hr : match_members present absent (flat_map entry_of r) (flat_map (emit W rec hist) r) = true).
+  { apply IH; [eapply nodup_app_r; eauto|]. intros it' Hi. apply Hc. right. exact Hi. }
+  pose proof (Hc it (or_introl eq_refl)) as Hit.
+  destruct it as [o i d ch op| |a]; cbn [flat_map entry_of emit app].
+  - destruct Hit as [Hne Hm].
+    destruct (member_value W rec hist (FE o i d ch op)) as [[k x]|] eqn:E.
+    + pose proof (member_value_key W rec hist _ _ _ E) as Hk. cbn in Hk. subst k.
+      cbn [match_members app snd skip_to]. rewrite Hm. exact Hr.
+    + cbn [app]. rewrite mm_skip_head; auto.
+      intros k x Hi Hs. apply Hne. intro Hk.
+      apply emit_keys in Hi. eapply (nodup_app_l (item_keys (FE o i d ch op))); eauto.
+      left. destruct k as [kn kb]. cbn in *. subst. reflexivity.
+  - destruct Hit as [Ha Hp]. cbn [app]. rewrite mm_skip_head; auto.
+  - cbn [app match_members attr_entry snd fst]. exact Hr.
+Qed.
+
+Lemma filter_attr_items its :
+  filter is_attr_item (flat_map (emit W rec hist) its) = map attr_entry (flat_map attr_of_item its).
+Proof.
+  induction its as [|it r IH]; [reflexivity|].
+  cbn [flat_map]. rewrite filter_app, map_app, IH. f_equal.
+  destruct it as [o i d ch op| |a]; cbn; auto.
+  destruct (member_value W rec hist (FE o i d ch op)) as [[k x]|] eqn:E; auto.
+  pose proof (member_value_key W rec hist _ _ _ E) as Hk. cbn in Hk. subst k. reflexivity.
+Qed.
+
+End Mirror.
+
+Lemma attrs_match_entries l : attrs_match l (map attr_entry l) = true.
+Proof.
+  induction l as [|a l IH]; [reflexivity|]. cbn. rewrite N.eqb_refl, IH.
+  unfold attr_value_ok. destruct (a_default a); cbn; rewrite ?N.eqb_refl; reflexivity.
 Qed.
